@@ -33,9 +33,9 @@ Proof. destruct self; reflexivity. Qed.
 (** the remaining script of the running destructor does not matter *)
 Lemma Inv_ctx_pc s self pc pc' k : Inv s (ctx self pc k) -> Inv s (ctx self pc' k).
 Proof.
-  destruct self as [p|]; [|tauto]. intros [H1 H2 [C1 C2 C3 C4 C5] H4 H5].
+  destruct self as [p|]; [|tauto]. intros [H1 H2 [C1 C2 C3 C4 C5 C6] H4 H5].
   split; [exact H1|exact H2| |exact H4|exact H5].
-  split; [exact C1|exact C2|exact C3|exact C4|exact C5].
+  split; [exact C1|exact C2|exact C3|exact C4|exact C5|exact C6].
 Qed.
 
 Section Resolve.
